@@ -188,3 +188,42 @@ func VerifC06_ChopStale() {
 		verifAllStored(dst, idx, "ChopFile")
 	}
 }
+
+// VerifC06_LocalStoreDamaged: the target is a real local store in which the prefix directory of
+// one chunk is not a directory (a stray file of that name): the chunk cannot be stored there, so
+// chop / copy must fail - the store must not be taken to hold the chunk already.
+func VerifC06_LocalStoreDamaged() {
+	vSchedFixed(true)
+	vPreempt(0)
+	unc := vChoose("uncompressed", 2) == 1
+	root := vTempDir()
+	os.Mkdir(root+"/dst", 0755)
+	dst, _ := NewLocalStore(root+"/dst", StoreOptions{Uncompressed: unc})
+	blob := []byte{0x61, 0x62}
+	os.WriteFile(root+"/blob", blob, 0644)
+	idx := Index{Index: FormatIndex{FeatureFlags: CaFormatSHA512256, ChunkSizeMin: 1, ChunkSizeAvg: 1, ChunkSizeMax: 1}}
+	src := &verifStore{}
+	var ids []ChunkID
+	for c := 0; c < 2; c++ {
+		id := src.add(blob[c : c+1])
+		idx.Chunks = append(idx.Chunks, IndexChunk{ID: id, Start: uint64(c), Size: 1})
+		ids = append(ids, id)
+	}
+	victim := vChoose("blocked-chunk", 2)
+	d, _ := dst.nameFromID(ids[victim])
+	os.WriteFile(d, []byte("not a directory"), 0644)
+	var err error
+	if vChoose("operation", 2) == 0 {
+		err = ChopFile(context.Background(), root+"/blob", idx.Chunks, dst, 1, NullProgressBar{})
+	} else {
+		err = Copy(context.Background(), ids, src, dst, 1, NullProgressBar{})
+	}
+	vCover("returned")
+	if err == nil {
+		for _, id := range ids {
+			_, gerr := dst.GetChunk(id)
+			vAssert(gerr == nil, "success reported although a chunk of the index cannot be read back from the target store")
+		}
+	}
+	vAssert(err != nil, "success reported although one chunk's directory cannot be created")
+}
